@@ -192,6 +192,34 @@ def anml_valid_name(n: str) -> bool:
     return bool(ANML_NAME_RE.match(n))
 
 
+def anml_invalid_shape(n: str) -> str:
+    """Shape of an emitted name that is not an ANML identifier (for mechanism strings)."""
+    if n == "":
+        return "empty"
+    if not re.match(r"[A-Za-z_]", n[0]) or ord(n[0]) > 127:
+        return "leading-non-letter"
+    return "letter-then-illegal-char"
+
+
+def anml_invalid_char_class(n: str) -> str:
+    """Which class the first offending character belongs to (counter only)."""
+    if n == "":
+        return "empty"
+    if n[0].isdigit():
+        return "leading-digit"
+    for c in n:
+        if re.match(r"[A-Za-z0-9_]", c) and ord(c) < 128:
+            continue
+        if ord(c) > 127:
+            return "non-ascii"
+        if c == "-":
+            return "dash"
+        if c.isspace():
+            return "whitespace"
+        return "punctuation"
+    return "other"
+
+
 def anml_is_keyword(n: str) -> bool:
     return n in ANML_KEYWORDS
 
